@@ -1770,8 +1770,7 @@ impl GrafeoDB {
     ///
     /// Returns an error if the snapshot is invalid or deserialization fails.
     pub fn import_snapshot(data: &[u8]) -> Result<Self> {
-        let config = bincode::config::standard();
-        let (snapshot, _): (Snapshot, _) = bincode::serde::decode_from_slice(data, config)
+        let snapshot = decode_snapshot(data)
             .map_err(|e| Error::Internal(format!("snapshot import failed: {e}")))?;
 
         if snapshot.version != 1 {
@@ -1843,6 +1842,43 @@ struct SnapshotEdge {
     dst: NodeId,
     edge_type: String,
     properties: Vec<(String, Value)>,
+}
+
+/// Decodes a snapshot with a byte budget derived from the input's size.
+///
+/// bincode allocates a string or byte buffer from its length prefix before it
+/// reads the contents, so without a budget a corrupt prefix panics (capacity
+/// overflow) or aborts the process (failed allocation) instead of returning an
+/// error. bincode charges the full width of an integer even when its varint takes
+/// one byte, so a decoded item claims at most eight times the bytes it occupies:
+/// eight times the input size is always enough for a valid snapshot. The budget
+/// is a const generic, hence the size classes.
+fn decode_snapshot(data: &[u8]) -> std::result::Result<Snapshot, bincode::error::DecodeError> {
+    macro_rules! decode_within {
+        ($limit:expr) => {
+            bincode::serde::decode_from_slice(
+                data,
+                bincode::config::standard().with_limit::<{ $limit }>(),
+            )
+            .map(|(snapshot, _)| snapshot)
+        };
+    }
+    let need = data.len().saturating_mul(8).saturating_add(64);
+    if need <= 1 << 16 {
+        decode_within!(1 << 16)
+    } else if need <= 1 << 20 {
+        decode_within!(1 << 20)
+    } else if need <= 1 << 24 {
+        decode_within!(1 << 24)
+    } else if need <= 1 << 28 {
+        decode_within!(1 << 28)
+    } else if need <= usize::MAX >> 28 {
+        decode_within!(usize::MAX >> 28)
+    } else if need <= usize::MAX >> 20 {
+        decode_within!(usize::MAX >> 20)
+    } else {
+        decode_within!(usize::MAX >> 1)
+    }
 }
 
 impl Drop for GrafeoDB {
